@@ -175,6 +175,7 @@ func init() {
 			ruleRingModulus(c, r, "", "enc")
 			ruleDeepCopy(c, r, "")
 			ruleOpSiblings(c, r, "")
+			ruleCodecSiblings(c, r, "")
 			ruleCounting(c, r, "", "write")
 			ruleBlockWriterHash(c, r, "")
 			ruleLookahead(c, r, "")
